@@ -49,6 +49,13 @@ def scenarios(ctx, n):
         recs = [dict(id=i + 1, topic=0, part=2, off=o + i, epoch=4, cls="P", delay_us=0) for i in range(nrec)]
         out.append(dict(run=100100 + j, name="revoke-with-records-in-flight-%d" % j, workers=2, batch=rng.choice([1, 2]), cap=16, single=rng.random() < 0.5,
                         seed=ctx.seed * 37 + j, recs=recs, revoke=True))
+    # a dead queue behind a failing backend: a record that is given up is finished when the dead queue has acknowledged it, not before
+    for j in range(3):
+        nrec = rng.randint(3, 7)
+        o = rng.choice([0, 100, 2 ** 20])
+        recs = [dict(id=i + 1, topic=1, part=4, off=o + i, epoch=2, cls=("F" if i == j % nrec or rng.random() < 0.3 else "P"), delay_us=rng.choice([0, 50])) for i in range(nrec)]
+        out.append(dict(run=100200 + j, name="dead-queue-behind-failing-backend-%d" % j, workers=rng.choice([1, 2]), batch=1, cap=16, single=True,
+                        seed=ctx.seed * 41 + j, recs=recs, dq=True))
     for k in range(n):
         run = k + 2
         nrec = rng.randint(2, 14)
@@ -148,7 +155,12 @@ def run(ctx):
     json.dump({"scenarios": scs, "pack": cases}, open(inp, "w"))
     rc, txt = ctx.run_bin(binary, "^TestVerifC10$", env={"VERIF_CASES": inp, "VERIF_OUT": out}, timeout=4500)
     if rc != 0 or not os.path.exists(out) or not os.path.exists(out + ".pack"):
-        raise vlib.Infra("C10 harness failed rc=%s:\n%s" % (rc, txt[-3000:]))
+        import core
+        crash = core.classify_crash(txt)       # a panic raised inside file.d's own code while running a scenario is a violation record
+        if crash is None:
+            raise vlib.Infra("C10 harness failed rc=%s:\n%s" % (rc, txt[-3000:]))
+        ctx.classify([dict(crash, kind="panic_in_pipeline_under_kafka_input")])
+        return
     pk = json.load(open(out + ".pack"))
     recs = [{"kind": "pack_mismatch", "case": b} for b in pk["pack_bad"]]
     mon = ctx.tlc("KafkaMon", "KafkaMon.cfg", workers=1, files={out: "trace.ndjson"}, timeout=2700, deadlock=False,
@@ -161,7 +173,8 @@ def run(ctx):
     for x in rep[-1]["viol"]:
         v = x["v"]
         recs.append({"kind": v["kind"], "id": v["id"], "other": v["other"], "info": v["info"], "run": x["run"],
-                     "single_processor": bool((by_run.get(x["run"]) or {}).get("single")), "scenario": by_run.get(x["run"])})
+                     "single_processor": bool((by_run.get(x["run"]) or {}).get("single")), "dead_queue": bool((by_run.get(x["run"]) or {}).get("dq")),
+                     "scenario": by_run.get(x["run"])})
     for s in scs:
         if len({(r["topic"], r["part"]) for r in s["recs"]}) < len(s["recs"]):
             shapes.add(json.dumps([[r["topic"], r["part"], r["cls"], r["delay_us"] > 0] for r in s["recs"]]))
